@@ -25,6 +25,9 @@ Inductive value :=
 | VObj (cls : nat) (fields : list value) (sp : nat * nat)
 | VNode (k : nat) (l : list value)          (* 0 Infix(left,operator,right)  1 Prefix(operator,right)  2 Postfix(left,operator) *)
 | VFun (f : pyfun)
+| VLit (s : list nat) (skip : bool)        (* _StringLiteral: a str that is also a parser *)
+| VRule (r : nat)                          (* a rule function passed as an argument *)
+| VClos (fid : nat) (given : list value)   (* a lifted argument function, bare or wrapped in _ParseFunction *)
 | VErr (id : nat).
 
 (* inline-Python expressions *)
@@ -34,6 +37,10 @@ Inductive pyexpr :=
 | PSucc (x : nat).          (* X + 1 *)
 
 Inductive bound := BNone | BLit (n : nat) | BVar (x : nat).
+
+Inductive arg :=
+| ARule (r : nat) | ALocal (x : nat) | APy (p : pyexpr) | AStrLit (s : list nat) (skip : bool)
+| AFun (fid : nat) (fv : list nat).       (* functionalize()d argument with its sorted free variables *)
 
 (* repetition bound: absent, literal, (names come later) *)
 Inductive expr :=
@@ -58,7 +65,9 @@ Inductive expr :=
 | Where (e pred : expr)
 | Let (x : nat) (e body : expr)
 | Class (cls : nat) (members : list (option nat * bool * expr))    (* name, is a constructor field, expression *)
-| OpTable (prefixes : option expr) (operands : expr) (postfixes infixes : option expr).
+| OpTable (prefixes : option expr) (operands : expr) (postfixes infixes : option expr)
+| RefL (x : nat)                                        (* a local name used as a parser *)
+| Call (callee : nat + nat) (args : list (option nat * arg)).   (* inl rule | inr local name *)
 
 Definition is_fail (e : expr) := match e with Fail => true | _ => false end.
 
@@ -83,6 +92,7 @@ Fixpoint always (e : expr) : bool :=
   | Class _ ms => (fix all (l : list (option nat * bool * expr)) : bool :=
                      match l with [] => true | (_, _, e) :: l' => always e && all l' end) ms
   | OpTable _ o _ _ => always o
+  | RefL _ | Call _ _ => false
   end.
 Fixpoint partial (e : expr) : bool :=
   match e with
@@ -100,6 +110,7 @@ Fixpoint partial (e : expr) : bool :=
   | Class _ ms => negb ((fix all (l : list (option nat * bool * expr)) : bool :=
                      match l with [] => true | (_, _, e) :: l' => always e && all l' end) ms)
   | OpTable _ o _ _ => negb (always o) && partial o
+  | RefL _ | Call _ _ => true
   end.
 End Flags.
 
@@ -127,7 +138,9 @@ Definition bind (o : out) (k : st -> out) : out := match o with Done s => k s | 
 
 Section Model.
 Variable list_fixed : bool.
-Variable g : list expr.               (* rule bodies *)
+Variable g : list (list nat * expr).   (* rules: parameter names, body *)
+Variable funs : list (list nat * expr). (* lifted argument functions: free variables (= extra parameters), body *)
+Variable named : bool.                (* _Flags.uses_context *)
 Variable ignored : option nat.        (* index of the synthetic _ignored rule *)
 Variable t : list nat.
 Variable rx : nat -> nat -> option nat.   (* oracle: Pattern.match(text, pos).end() *)
@@ -276,7 +289,7 @@ Fixpoint value_eqb (a b : value) {struct a} : bool :=
   | VNone, VNone => true
   | VBool x, VBool y => Bool.eqb x y
   | VInt x, VInt y => Nat.eqb x y
-  | VStr x, VStr y => if list_eq_dec Nat.eq_dec x y then true else false
+  | VStr x, VStr y | VLit x _, VStr y | VStr x, VLit y _ | VLit x _, VLit y _ => if list_eq_dec Nat.eq_dec x y then true else false
   | VList x, VList y | VTuple x, VTuple y =>
       (fix go (x y : list value) : bool :=
          match x, y with [], [] => true | a :: x', b :: y' => value_eqb a b && go x' y' | _, _ => false end) x y
@@ -285,12 +298,12 @@ Fixpoint value_eqb (a b : value) {struct a} : bool :=
 Definition truthy (v : value) : bool :=
   match v with
   | VNone => false | VBool b => b | VInt n => negb (Nat.eqb n 0)
-  | VStr s => match s with [] => false | _ => true end
+  | VStr s | VLit s _ => match s with [] => false | _ => true end
   | VList l | VTuple l => match l with [] => false | _ => true end
   | _ => true
   end.
 Definition vlen (v : value) : option nat :=
-  match v with VStr s => Some (length s) | VList l | VTuple l => Some (length l) | _ => None end.
+  match v with VStr s | VLit s _ => Some (length s) | VList l | VTuple l => Some (length l) | _ => None end.
 Fixpoint digits (s : list nat) (acc : nat) : option nat :=
   match s with
   | [] => Some acc
@@ -519,8 +532,23 @@ Fixpoint exec (n : nat) (e : expr) (s : st) : out :=
   | S n =>
     let call (r : nat) (p : nat) : out :=
         match nth_error g r with
-        | Some b => exec n b (fresh p)
+        | Some ([], b) => exec n b (fresh p)
+        | Some (_ :: _, _) => Stuck 20                (* TypeError: missing positional arguments *)
         | None => Stuck 1
+        end in
+    (* calling a parser VALUE at a position (what the driver does with result[1](text, pos)) *)
+    let invoke (v : value) (p : nat) : out :=
+        match v with
+        | VRule r => call r p
+        | VLit sl sk => exec n (Str sl sk) (fresh p)
+        | VClos fid given =>
+            match nth_error funs fid with
+            | Some (ps, b) => if Nat.eqb (length ps) (length given)
+                              then exec n b (mk0 false VNone p (combine ps given))
+                              else Stuck 21           (* TypeError: wrong number of arguments *)
+            | None => Stuck 22
+            end
+        | _ => Stuck 23                               (* TypeError: not callable *)
         end in
     (* the callee's registers come back, the caller's locals stay *)
     let ret (o : out) : out := bind o (fun c => Done (upd s (status c) (result c) (pos c))) in
@@ -634,13 +662,69 @@ Fixpoint exec (n : nat) (e : expr) (s : st) : out :=
           if always e || status s1 then exec n body (bindl s1 x (result s1)) else Done s1)
     | Class cls ms => class_loop (exec n) cls (pos s) ms s []
     | OpTable pre opd post inf => op_main (exec n) n pre opd post inf s (OS [] [] 0 (pos s))
+    | RefL x => match lookup x (locals s) with
+                | Some v => ret (invoke v (pos s))
+                | None => Stuck 24
+                end
+    | Call callee args =>
+        let eval_arg (a : arg) : option value :=
+            match a with
+            | ARule r => Some (VRule r)
+            | ALocal x => lookup x (locals s)
+            | APy p => eval_py (locals s) p
+            | AStrLit sl sk => Some (VLit sl sk)
+            | AFun fid fv =>
+                match (fix all (l : list nat) : option (list value) :=
+                         match l with [] => Some [] | x :: l' =>
+                           match lookup x (locals s), all l' with Some v, Some r => Some (v :: r) | _, _ => None end end) fv with
+                | None => None                                         (* unbound captured name *)
+                | Some vals =>
+                    (* argumentize: bare function iff len(params) <= 3, else _ParseFunction(func, params[2:], ()) *)
+                    if named then (match fv with [] => Some (VClos fid []) | _ => Some (VClos fid (VInt (pos s) :: vals)) end)
+                    else if Nat.leb (length fv) 1 then Some (VClos fid []) else Some (VClos fid vals)
+                end
+            end in
+        let target : option nat :=
+            match callee with
+            | inl r => Some r
+            | inr x => match lookup x (locals s) with Some (VRule r) => Some r | _ => None end
+            end in
+        match target with
+        | None => Stuck 25
+        | Some r =>
+          match nth_error g r with
+          | None => Stuck 26
+          | Some (ps, b) =>
+            (* positional arguments first, then keywords by name *)
+            let fix bind_args (ps : list nat) (args : list (option nat * arg)) (acc : env) : option env :=
+                match args with
+                | [] => match ps with [] => Some acc | _ => None end
+                | (None, a) :: args' =>
+                    match ps, eval_arg a with
+                    | p :: ps', Some v => bind_args ps' args' ((p, v) :: acc)
+                    | _, _ => None
+                    end
+                | (Some k, a) :: args' =>
+                    if existsb (Nat.eqb k) ps then
+                      match eval_arg a with
+                      | Some v => bind_args (filter (fun q => negb (Nat.eqb q k)) ps) args' ((k, v) :: acc)
+                      | None => None
+                      end
+                    else None
+                end in
+            match bind_args ps args [] with
+            | Some en => ret (exec n b (mk0 false VNone (pos s) en))
+            | None => Stuck 27
+            end
+          end
+        end
     end
   end.
 
 Definition run_rule (fuel : nat) (r : nat) (p : nat) : option (bool * option value * nat) :=
   match nth_error g r with
   | None => None
-  | Some b => match exec fuel b (fresh p) with
+  | Some (_, b) => match exec fuel b (fresh p) with
               | Done s => Some (status s, if status s then Some (result s) else None, pos s)
               | OutOfFuel => None
               | Stuck w => Some (false, Some (VErr 1000), 0)
